@@ -6,10 +6,17 @@
      pole_with_label Fn Lab l .. i o   cell (i,o) is inside the table, Lab[i][o] = l and Fn[i][o] is finite
      marker_at Fn step c m       marker m = (Fn[c], column(c) * step)
      cluster_at Fn Xi c m        marker m = (Fn[c], Xi[c])
+   Whole diagrams and class methods (Model/M_plot_full.v):
+     stab_diagram Fn Lab step ordmax ordmin freqlim hide cov   everything stab_plot draws: markers, four error-bar families, axis limits
+     bar_at Fn Cov step c b      bar b = (Fn[c], column(c) * step, errw Cov[c] Fn[c])  - the pole's OWN deviation cell
+     bar_cell Fn Cov Lab l big .. i o   retained pole with label l, finite deviation, |cov * f| <= 1/2 (big = false) / > 1/2 (big = true)
+     cluster_diagram, cmif_diagram db S freq freqlim nSv        the other two functions with grid and limits (db = decibel map)
+     class_plot_stab / _cluster / _cmif c res rs ..             keyword arguments a class's plot method hands to the plot function
+     class_stab_diagram ..       the diagram that method returns (Called d), NotRun = raises before plotting, NoMethod
    The frequency / damping type X is arbitrary: the plotting code only moves those values. *)
 From Coq Require Import String List Arith ZArith QArith Qabs Bool Lia.
-From PyOMA.Model Require Import M_plot.
-From PyOMA.Proofs Require Import P_plot.
+From PyOMA.Model Require Import M_plot M_plot_full.
+From PyOMA.Proofs Require Import P_plot P_plot_full.
 Import ListNotations.
 
 (* column-major flatten: element k of t.flatten(order="F") is t[k mod rows][k div rows] *)
@@ -108,6 +115,151 @@ Proof. exact (@rectb_iff). Qed.
 Theorem C20_cubeb_iff : forall n nf S, cubeb n nf S = true <-> cube n nf S.
 Proof. exact cubeb_iff. Qed.
 
+
+(* ---------------------------------------------------------------- whole diagrams: limits, error bars *)
+(* the markers of the whole diagram are those of C20_stab_exact whatever limits and deviations are given; freqlim only becomes
+   the x-limits; limits never change the bars; without a deviation table there is no bar; the same for the cluster diagram *)
+Theorem C20_limits_only_limits : forall Fn Xi Lab step hide cov ordmax ordmin freqlim ordmax' ordmin' freqlim',
+  let d := stab_diagram Fn Lab step ordmax ordmin freqlim hide cov in
+  let d' := stab_diagram Fn Lab step ordmax' ordmin' freqlim' hide cov in
+  let d0 := stab_diagram Fn Lab step ordmax ordmin freqlim hide None in
+  let dc := cluster_diagram Fn Xi Lab ordmin freqlim hide in
+  (sd_stable d, sd_unstable d) = stab_markers Fn Lab step hide /\ sd_xlim d = freqlim /\
+  sd_bs_small d = sd_bs_small d' /\ sd_bs_big d = sd_bs_big d' /\ sd_bu_small d = sd_bu_small d' /\ sd_bu_big d = sd_bu_big d' /\
+  sd_bs_small d0 = [] /\ sd_bs_big d0 = [] /\ sd_bu_small d0 = [] /\ sd_bu_big d0 = [] /\
+  (cd_stable dc, cd_unstable dc) = cluster_markers Fn Xi Lab hide /\ cd_xlim dc = freqlim.
+Proof. exact diagram_invariance. Qed.
+
+(* error bars, exactness: ss/sb (us/ub) enumerate without repetition exactly the retained poles labelled 1 (0) with a finite
+   deviation and |cov * f| <= 1/2 / > 1/2; the four bar families correspond one-to-one, position by position, to them: one
+   bar per such pole at the pole's marker, with the half-width of the pole's own deviation cell; rejected poles, nan
+   deviations and hidden unstable poles are in no enumeration: no bar *)
+Theorem C20_errbars_exact : forall rows cols (Fn Cov:qtab) Lab step ordmax ordmin freqlim hide,
+  rect rows cols Fn -> rect rows cols Lab -> rect rows cols Cov ->
+  let d := stab_diagram Fn Lab step ordmax ordmin freqlim hide (Some Cov) in
+  exists ss sb us ub : list (nat*nat),
+    NoDup ss /\ NoDup sb /\ NoDup us /\ NoDup ub /\
+    (forall i o, In (i, o) ss <-> bar_cell Fn Cov Lab 1 false rows cols i o) /\
+    (forall i o, In (i, o) sb <-> bar_cell Fn Cov Lab 1 true rows cols i o) /\
+    (forall i o, In (i, o) us <-> hide = false /\ bar_cell Fn Cov Lab 0 false rows cols i o) /\
+    (forall i o, In (i, o) ub <-> hide = false /\ bar_cell Fn Cov Lab 0 true rows cols i o) /\
+    Forall2 (bar_at Fn Cov step) ss (sd_bs_small d) /\ Forall2 (bar_at Fn Cov step) sb (sd_bs_big d) /\
+    Forall2 (bar_at Fn Cov step) us (sd_bu_small d) /\ Forall2 (bar_at Fn Cov step) ub (sd_bu_big d).
+Proof. exact errbars_exact. Qed.
+
+(* the two width classes of one label are disjoint and cover the poles with a finite deviation (exactly one bar per such
+   marker); the half-width is the pole's own |cov * f| when that is at most 1/2, else exactly 1/2 *)
+Theorem C20_errbar_one_class_width : forall (Fn Cov:qtab) Lab l rows cols i o,
+  (bar_cell Fn Cov Lab l false rows cols i o -> bar_cell Fn Cov Lab l true rows cols i o -> False) /\
+  (forall cv, pole_with_label Fn Lab l rows cols i o -> get2 Cov i o = Some (Some cv) ->
+     bar_cell Fn Cov Lab l false rows cols i o \/ bar_cell Fn Cov Lab l true rows cols i o) /\
+  (forall cv f, (Qabs (cv * f) <= half -> errw cv f = Qabs (cv * f)) /\ (~ Qabs (cv * f) <= half -> errw cv f = half) /\
+                0 <= errw cv f /\ errw cv f <= half).
+Proof. exact errbar_one_class_width. Qed.
+
+(* every bar sits on a drawn marker of its own family and carries that pole's own width (none invented, none for rejected
+   poles); every drawn marker whose pole has a finite deviation carries its bar *)
+Theorem C20_errbar_sound_complete : forall rows cols (Fn Cov:qtab) Lab step ordmax ordmin freqlim hide,
+  rect rows cols Fn -> rect rows cols Lab -> rect rows cols Cov ->
+  let d := stab_diagram Fn Lab step ordmax ordmin freqlim hide (Some Cov) in
+  (forall f y e,
+    (In (f, y, e) (sd_bs_small d ++ sd_bs_big d) ->
+       In (f, y) (sd_stable d) /\
+       exists i o cv, pole_with_label Fn Lab 1 rows cols i o /\ get2 Fn i o = Some (Some f) /\ y = (Z.of_nat o * step)%Z /\
+                      get2 Cov i o = Some (Some cv) /\ e = errw cv f) /\
+    (In (f, y, e) (sd_bu_small d ++ sd_bu_big d) ->
+       hide = false /\ In (f, y) (sd_unstable d) /\
+       exists i o cv, pole_with_label Fn Lab 0 rows cols i o /\ get2 Fn i o = Some (Some f) /\ y = (Z.of_nat o * step)%Z /\
+                      get2 Cov i o = Some (Some cv) /\ e = errw cv f)) /\
+  (forall i o f cv, get2 Fn i o = Some (Some f) -> get2 Cov i o = Some (Some cv) ->
+    (pole_with_label Fn Lab 1 rows cols i o -> In (f, (Z.of_nat o * step)%Z, errw cv f) (sd_bs_small d ++ sd_bs_big d)) /\
+    (hide = false -> pole_with_label Fn Lab 0 rows cols i o ->
+       In (f, (Z.of_nat o * step)%Z, errw cv f) (sd_bu_small d ++ sd_bu_big d))).
+Proof. exact errbar_sound_complete. Qed.
+
+(* the cluster diagram draws the same poles as the stabilisation diagram, also with unstable poles shown, with error bars and
+   whatever limits each of the two is given *)
+Theorem C20_same_poles_full : forall rows cols (Fn Xi:qtab) Lab step hide cov ordmax ordmin freqlim ordmin' freqlim',
+  rect rows cols Fn -> rect rows cols Xi -> rect rows cols Lab ->
+  (forall i o, (exists f, get2 Fn i o = Some (Some f)) <-> (exists d, get2 Xi i o = Some (Some d))) ->
+  let d := stab_diagram Fn Lab step ordmax ordmin freqlim hide cov in
+  let dc := cluster_diagram Fn Xi Lab ordmin' freqlim' hide in
+  exists cs cu : list (nat*nat),
+    NoDup cs /\ (forall i o, In (i, o) cs <-> pole_with_label Fn Lab 1 rows cols i o) /\
+    Forall2 (marker_at Fn step) cs (sd_stable d) /\ Forall2 (cluster_at Fn Xi) cs (cd_stable dc) /\
+    NoDup cu /\ (forall i o, In (i, o) cu <-> hide = false /\ pole_with_label Fn Lab 0 rows cols i o) /\
+    Forall2 (marker_at Fn step) cu (sd_unstable d) /\ Forall2 (cluster_at Fn Xi) cu (cd_unstable dc).
+Proof. exact same_poles_full. Qed.
+
+(* CMIF with its grid: an admissible request gives one Line2D per singular value k < m whose x-data is the WHOLE grid freq
+   and whose y-data is db (S[k][k][j] / max S[0][0]) line by line (db = 10 log10); freqlim only becomes the x-limits; an
+   inadmissible request is a ValueError; a grid of another length gives no diagram as soon as one curve is due *)
+Theorem C20_cmif_full : forall (Y:Type) (db:Q->Y) n nf S freq freqlim nSv, cube n nf S -> (0 < n)%nat -> (0 < nf)%nat ->
+  (length freq = nf ->
+   match requested n nSv with
+   | None => cmif_diagram db S freq freqlim nSv = PErr PValueErr
+   | Some m => (m <= n)%nat /\ exists d0 mx dg, diag3 S 0 = Some d0 /\ is_max d0 mx /\
+        cmif_diagram db S freq freqlim nSv = POk dg /\ md_xlim dg = freqlim /\
+        Forall2 (fun k c => exists d, diag3 S k = Some d /\ map fst c = freq /\ map snd c = map (fun v => db (v / mx)) d)
+                (seq 0 m) (md_curves dg)
+   end) /\
+  (length freq <> nf -> forall m, requested n nSv = Some m -> (0 < m)%nat -> cmif_diagram db S freq freqlim nSv = PErr PValueErr).
+Proof. exact (@cmif_full). Qed.
+
+(* ---------------------------------------------------------------- the classes' plot methods *)
+(* plot_stab / plot_cluster / plot_CMIF of a class return the plot FUNCTION's diagram on the result's own tables: SSI classes
+   with their run step and deviation table, pLSCF classes with step 1 and no deviations (hence no bars); before a run they
+   raise; a class without the method has none *)
+Theorem C20_class_methods_are_functions : forall (Y:Type) (db:Q->Y) c (r:pole_res qtab ztab)
+  (sr:spec_res (list (list (list Q))) (list Q)) rs freqlim hide nSv,
+  class_stab_diagram c (Some r) rs freqlim hide =
+    (if is_ssi c then Called (stab_diagram (pr_Fn r) (pr_Lab r) (rs_step rs) (rs_ordmax rs) (rs_ordmin rs) freqlim hide (pr_cov r))
+     else if is_plscf c then Called (stab_diagram (pr_Fn r) (pr_Lab r) 1 (rs_ordmax rs) (rs_ordmin rs) freqlim hide None)
+     else NoMethod) /\
+  class_cluster_diagram c (Some r) rs freqlim hide =
+    (if (is_ssi c || is_plscf c)%bool then Called (cluster_diagram (pr_Fn r) (pr_Xi r) (pr_Lab r) (rs_ordmin rs) freqlim hide)
+     else NoMethod) /\
+  class_cmif_diagram db c (Some sr) freqlim nSv =
+    (if is_fdd c then Called (cmif_diagram db (sr_S sr) (sr_freq sr) freqlim nSv) else NoMethod) /\
+  class_stab_diagram c None rs freqlim hide = (if (is_ssi c || is_plscf c)%bool then NotRun else NoMethod) /\
+  class_cluster_diagram c None rs freqlim hide = (if (is_ssi c || is_plscf c)%bool then NotRun else NoMethod) /\
+  class_cmif_diagram db c None freqlim nSv = (if is_fdd c then NotRun else NoMethod) /\
+  (is_plscf c = true -> exists d, class_stab_diagram c (Some r) rs freqlim hide = Called d /\
+      sd_bs_small d = [] /\ sd_bs_big d = [] /\ sd_bu_small d = [] /\ sd_bu_big d = []).
+Proof. exact (@class_methods_are_functions). Qed.
+
+(* SSIcov, SSIdat_MS, SSIcov_MS forward exactly as SSIdat; pLSCF_MS as pLSCF; EFDD, FSDD, FDD_MS, EFDD_MS as FDD - for every
+   type of table (the forwarding functions can only move them) *)
+Theorem C20_class_family_same : forall (T L V F:Type) (res:option (pole_res T L)) (sres:option (spec_res V F)) rs freqlim hide nSv,
+  (forall c, is_ssi c = true -> class_plot_stab c res rs freqlim hide = class_plot_stab SSIdat res rs freqlim hide /\
+                                class_plot_cluster c res rs freqlim hide = class_plot_cluster SSIdat res rs freqlim hide) /\
+  (forall c, is_plscf c = true -> class_plot_stab c res rs freqlim hide = class_plot_stab pLSCF res rs freqlim hide /\
+                                  class_plot_cluster c res rs freqlim hide = class_plot_cluster pLSCF res rs freqlim hide) /\
+  (forall c, is_fdd c = true -> class_plot_cmif c sres freqlim nSv = class_plot_cmif FDD sres freqlim nSv).
+Proof. exact (@class_family_same). Qed.
+
+(* class level, exactness: the diagram returned by plot_stab shows exactly the retained poles of the result's own tables, one
+   marker each at (frequency, column * class step), class step = run step for SSI, 1 for pLSCF; and plot_cluster of the same
+   class on the same result shows the same poles *)
+Theorem C20_class_exact : forall c (r:pole_res qtab ztab) rs freqlim freqlim' hide rows cols,
+  (is_ssi c || is_plscf c)%bool = true -> rect rows cols (pr_Fn r) -> rect rows cols (pr_Lab r) ->
+  (exists d, class_stab_diagram c (Some r) rs freqlim hide = Called d /\ sd_xlim d = freqlim /\
+   exists cs cu : list (nat*nat),
+     NoDup cs /\ (forall i o, In (i, o) cs <-> pole_with_label (pr_Fn r) (pr_Lab r) 1 rows cols i o) /\
+     Forall2 (marker_at (pr_Fn r) (class_step c rs)) cs (sd_stable d) /\
+     NoDup cu /\ (forall i o, In (i, o) cu <-> hide = false /\ pole_with_label (pr_Fn r) (pr_Lab r) 0 rows cols i o) /\
+     Forall2 (marker_at (pr_Fn r) (class_step c rs)) cu (sd_unstable d)) /\
+  (rect rows cols (pr_Xi r) ->
+   (forall i o, (exists f, get2 (pr_Fn r) i o = Some (Some f)) <-> (exists d, get2 (pr_Xi r) i o = Some (Some d))) ->
+   exists d dc, class_stab_diagram c (Some r) rs freqlim hide = Called d /\
+                class_cluster_diagram c (Some r) rs freqlim' hide = Called dc /\
+   exists cs cu : list (nat*nat),
+     NoDup cs /\ (forall i o, In (i, o) cs <-> pole_with_label (pr_Fn r) (pr_Lab r) 1 rows cols i o) /\
+     Forall2 (marker_at (pr_Fn r) (class_step c rs)) cs (sd_stable d) /\ Forall2 (cluster_at (pr_Fn r) (pr_Xi r)) cs (cd_stable dc) /\
+     NoDup cu /\ (forall i o, In (i, o) cu <-> hide = false /\ pole_with_label (pr_Fn r) (pr_Lab r) 0 rows cols i o) /\
+     Forall2 (marker_at (pr_Fn r) (class_step c rs)) cu (sd_unstable d) /\ Forall2 (cluster_at (pr_Fn r) (pr_Xi r)) cu (cd_unstable dc)).
+Proof. exact class_exact. Qed.
+
 Print Assumptions C20_flatten_F_index.
 Print Assumptions C20_stab_exact.
 Print Assumptions C20_stab_marker_sound.
@@ -120,6 +272,15 @@ Print Assumptions C20_class_instances.
 Print Assumptions C20_cmif_spec.
 Print Assumptions C20_rectb_iff.
 Print Assumptions C20_cubeb_iff.
+Print Assumptions C20_limits_only_limits.
+Print Assumptions C20_errbars_exact.
+Print Assumptions C20_errbar_one_class_width.
+Print Assumptions C20_errbar_sound_complete.
+Print Assumptions C20_same_poles_full.
+Print Assumptions C20_cmif_full.
+Print Assumptions C20_class_methods_are_functions.
+Print Assumptions C20_class_family_same.
+Print Assumptions C20_class_exact.
 
 (* non-vacuity: a 2 x 3 table (non-square), one rejected pole, a duplicated frequency, labels 0/1, step 2.
    Column-major order, y = column * step, the nan cell (0,1) nowhere, the pole (1,1) with nan damping absent from the
@@ -143,4 +304,55 @@ Example C20_example_cmif :
   cmif_curves S None = POk [[1/4; 4/4; 2/4]; [(1#2)/4; 1/4; 3/4]] /\
   cmif_curves S (Some 1%Z) = POk [[1/4; 4/4; 2/4]] /\
   cmif_curves S (Some 2%Z) = PErr PValueErr.
+Proof. vm_compute. repeat split; reflexivity. Qed.
+
+(* non-vacuity of the error-bar statements: 2 x 3 table, step 2, unstable poles shown.  Stable pole (0,0): |cov * f| = 1/100, its own
+   width; stable pole (1,1): nan deviation, a marker and no bar; stable pole (1,2): 7/10, clipped to 1/2; unstable pole (1,0): 3/2,
+   clipped; unstable pole (0,2): 3/10, its own width; the rejected pole (0,1) has a finite deviation and still no bar; the limits
+   are carried through unchanged; with hide = true the stable bars stay and the unstable ones vanish *)
+Example C20_example_errbars :
+  let Fn := [[Some (1#1); None; Some (3#1)]; [Some (3#1); Some (5#1); Some (7#2)]] in
+  let Lab := [[1;1;0]; [0;1;1]]%Z in
+  let Cov := [[Some (1#100); Some (1#5); Some (1#10)]; [Some (1#2); None; Some (1#5)]] in
+  let d := stab_diagram Fn Lab 2 4 0 (Some (0#1, 10#1)) false (Some Cov) in
+  rectb 2 3 Cov = true /\
+  (sd_stable d, sd_unstable d) = stab_markers Fn Lab 2 false /\
+  map (fun b => (fst b, Qred (snd b))) (sd_bs_small d) = [((1#1, 0%Z), 1#100)] /\
+  map (fun b => (fst b, Qred (snd b))) (sd_bs_big d) = [((7#2, 4%Z), 1#2)] /\
+  map (fun b => (fst b, Qred (snd b))) (sd_bu_small d) = [((3#1, 4%Z), 3#10)] /\
+  map (fun b => (fst b, Qred (snd b))) (sd_bu_big d) = [((3#1, 0%Z), 1#2)] /\
+  sd_xlim d = Some (0#1, 10#1) /\ sd_ylim d = Some (0, 5)%Z /\
+  sd_bs_small (stab_diagram Fn Lab 2 4 0 None true (Some Cov)) = sd_bs_small d /\
+  sd_bu_small (stab_diagram Fn Lab 2 4 0 None true (Some Cov)) = [].
+Proof. vm_compute. repeat split; reflexivity. Qed.
+
+(* non-vacuity of the class statements: an SSI class draws with its run step 3 and the result's deviations, a pLSCF class
+   with step 1 and none; FDD forwards S_val / freq; shown by field NAME for the forwarding functions *)
+Example C20_example_classes :
+  let r := {| pr_Fn := [[Some (1#1); Some (2#1)]; [None; Some (4#1)]; [Some (5#1); None]]; pr_Xi := [[Some (1#10); Some (1#10)]; [None; Some (1#5)]; [Some (1#4); None]];
+              pr_Lab := [[1;0]; [0;1]; [1;1]]%Z; pr_cov := Some [[Some (1#10); None]; [None; Some (1#4)]; [None; None]] |} in
+  let rs := {| rs_step := 3; rs_ordmin := 0; rs_ordmax := 3 |}%Z in
+  let names := {| pr_Fn := "Fn_poles"; pr_Xi := "Xi_poles"; pr_Lab := "Lab"; pr_cov := Some "Fn_poles_cov" |}%string in
+  rectb 3 2 (pr_Fn r) = true /\ rectb 3 2 (pr_Lab r) = true /\
+  map_call (fun d => (sd_stable d, sd_unstable d, length (sd_bs_small d ++ sd_bs_big d))) (class_stab_diagram SSIcov_MS (Some r) rs None false)
+    = Called ([(1#1, 0%Z); (5#1, 0%Z); (4#1, 3%Z)], [(2#1, 3%Z)], 2%nat) /\
+  map_call (fun d => (sd_stable d, sd_unstable d, length (sd_bs_small d ++ sd_bs_big d))) (class_stab_diagram pLSCF_MS (Some r) rs None true)
+    = Called ([(1#1, 0%Z); (5#1, 0%Z); (4#1, 1%Z)], [], 0%nat) /\
+  class_stab_diagram SSIdat None rs None true = NotRun /\ class_stab_diagram FDD (Some r) rs None true = NoMethod /\
+  show_call show_stab_args (class_plot_stab pLSCF (Some names) rs (Some (1#1, 2#1)) true)
+    = "C Fn=Fn_poles;Lab=Lab;step=1;ordmax=3;ordmin=0;freqlim=1/1,2/1;hide_poles=T;Fn_cov=None"%string /\
+  show_call show_stab_args (class_plot_stab SSIcov (Some names) rs None false)
+    = "C Fn=Fn_poles;Lab=Lab;step=3;ordmax=3;ordmin=0;freqlim=auto;hide_poles=F;Fn_cov=Fn_poles_cov"%string /\
+  show_call show_cmif_args (class_plot_cmif FSDD (Some {| sr_S := "S_val"; sr_freq := "freq" |}%string) None (Some 2%Z))
+    = "C S_val=S_val;freq=freq;freqlim=auto;nSv=2"%string.
+Proof. vm_compute. repeat split; reflexivity. Qed.
+
+(* non-vacuity of the full CMIF statement: the grid is the x-data of every curve, a grid of another length gives no diagram *)
+Example C20_example_cmif_full :
+  let S := [[[1#1; 4#1; 2#1]; [9#1; 9#1; 9#1]]; [[7#1; 7#1; 7#1]; [1#2; 1#1; 3#1]]] in
+  let idq := fun v : Q => v in
+  cmif_diagram idq S [0#1; 1#2; 1#1] (Some (0#1, 1#2)) (Some 1%Z)
+    = POk {| md_curves := [[(0#1, 1/4); (1#2, 4/4); (1#1, 2/4)]]; md_xlim := Some (0#1, 1#2) |} /\
+  cmif_diagram idq S [0#1; 1#2] None None = PErr PValueErr /\
+  cmif_diagram idq S [0#1; 1#2; 1#1] None (Some 2%Z) = PErr PValueErr.
 Proof. vm_compute. repeat split; reflexivity. Qed.
